@@ -177,6 +177,13 @@ Inductive scalar :=
 | STimedelta (us : Z)                          (* total microseconds *)
 | STime (h m s us : Z).
 
+(* helper.time_to_seconds (since 82f0543): the int (h*60+m)*60+s for a whole-second time, else that int plus
+   microsecond / 1000000 (int / int, correctly rounded) added in double arithmetic; tzinfo is ignored *)
+Definition time_seconds (h m s us : Z) : pynum :=
+  let secs := ((h * 60 + m) * 60 + s)%Z in
+  if Z.eqb us 0 then PInt secs
+  else PFloat (SF2Prim (sf_of_Z secs) + SF2Prim (sf_div_Z us million))%float.
+
 Definition date_ordinal (s : scalar) : option Z :=
   match s with SDateTime o _ => Some o | SDate o => Some o | _ => None end.
 
@@ -192,8 +199,8 @@ Definition numeric_types_distance (s1 s2 : scalar) (mx : float) : option dres :=
       match s1, s2 with
       | STimedelta u1, STimedelta u2 =>
           Some (numbers_distance (PFloat (SF2Prim (sf_div_Z u1 million))) (PFloat (SF2Prim (sf_div_Z u2 million))) mx)
-      | STime h1 m1 c1 _, STime h2 m2 c2 _ =>         (* time_to_seconds drops the microseconds *)
-          Some (numbers_distance (PInt ((h1 * 60 + m1) * 60 + c1)) (PInt ((h2 * 60 + m2) * 60 + c2)) mx)
+      | STime h1 m1 c1 u1, STime h2 m2 c2 u2 =>
+          Some (numbers_distance (time_seconds h1 m1 c1 u1) (time_seconds h2 m2 c2 u2) mx)
       | _, _ => None
       end
     end
